@@ -201,6 +201,16 @@ impl Ledger {
     }
 }
 
+/// An invoice proposal as the signer's front ends make it.
+fn propose_invoice(via: u8, node: lightning_signer::prelude::Arc<lightning_signer::node::Node>, inv: Invoice) -> Out<bool> {
+    use vls_protocol_signer::approver::{Approve, NegativeApprover, PositiveApprover};
+    match via {
+        1 => call(move || PositiveApprover().handle_proposed_invoice(&node, inv)),
+        2 => call(move || NegativeApprover().handle_proposed_invoice(&node, inv)),
+        _ => call(move || node.add_invoice(inv)),
+    }
+}
+
 fn make_invoice(h: u8, amt_msat: u64, now: Duration) -> Option<Invoice> {
     let payment_hash = Sha256::hash(&[h, 0x55, (amt_msat & 0xff) as u8]);
     let private_key = SecretKey::from_slice(&[42; 32]).unwrap();
@@ -305,6 +315,15 @@ impl C12 {
         } else {
             World::new(cfg)
         };
+        // every third fee limit value: invoices are proposed directly (Node::add_invoice), through
+        // Approve::handle_proposed_invoice with an approver that approves, or with one that declines
+        // while the payee is on the node's allowlist (the two branches that reach add_invoice)
+        let via = (fee_limit_sat % 3) as u8;
+        st.class(format!("invoices_via:{}", ["add_invoice", "approving-approver", "allowlisted-payee"][via as usize]));
+        if via == 2 {
+            let payee_key = PublicKey::from_secret_key(&w.secp, &SecretKey::from_slice(&[42; 32]).unwrap());
+            w.node.add_allowlist(&[format!("payee:{}", payee_key)]).expect("payee allowlist entry");
+        }
         let mut pay = Ledger { b: b as u64, n: n as u64, limit, approved: vec![] };
         let mut fee = Ledger { b: b as u64, n: n as u64, limit: fee_limit, approved: vec![] };
         let payee = PublicKey::from_secret_key(&w.secp, &SecretKey::from_slice(&[5u8; 32]).unwrap());
@@ -340,7 +359,7 @@ impl C12 {
                         }
                         last_inv = Some((inv.clone(), a.min(u64::MAX / 4), already_recorded));
                         let node = w.node.clone();
-                        call(move || node.add_invoice(inv))
+                        propose_invoice(via, node, inv)
                     } else {
                         // unique hash per event so that it is a new approval
                         let ph = PaymentHash(Sha256::hash(&[*h, (uniq & 0xff) as u8, (uniq >> 8) as u8, 0x77]).to_byte_array());
@@ -434,7 +453,7 @@ impl C12 {
                     t += dt.secs(b, n);
                     w.clock.set(Duration::from_secs(t));
                     let node = w.node.clone();
-                    let res: Out<bool> = call(move || node.add_invoice(inv));
+                    let res: Out<bool> = propose_invoice(via, node, inv);
                     let approved = matches!(res, Out::Ok(true));
                     st.class(format!("retry-invoice:{}:{}", if counted { "of-approved" } else { "of-refused" }, res.tag()));
                     if res.is_panic() {
